@@ -598,6 +598,22 @@ func runLive(c Case, opt Options, live *Live) *Trace {
 		}
 		return m
 	}
+	accepted := func() map[string]uint32 {
+		m := map[string]uint32{}
+		for _, s := range cl.All() {
+			m[s.Name] = s.Accepted()
+		}
+		return m
+	}
+	newConns := func(before map[string]uint32) []ConnKey {
+		var res []ConnKey
+		for _, s := range cl.All() {
+			for id := before[s.Name] + 1; id <= s.Accepted(); id++ {
+				res = append(res, ConnKey{s.Name, id})
+			}
+		}
+		return res
+	}
 	since := func(m map[string]int) []fakemysql.Event {
 		var all []fakemysql.Event
 		for _, s := range cl.All() {
@@ -656,6 +672,7 @@ func runLive(c Case, opt Options, live *Live) *Trace {
 			st.FaultArmed = true
 		}
 		m := marks()
+		acc := accepted()
 		setRes := func(r *rawclient.Result, err error) {
 			if err != nil {
 				st.IOErr = err.Error()
@@ -766,6 +783,7 @@ func runLive(c Case, opt Options, live *Live) *Trace {
 			}
 		}
 		st.Events = since(m)
+		st.NewConns = newConns(acc)
 		st.Pools = curPools()
 		st.OldPools = oldPools()
 		tr.Steps = append(tr.Steps, st)
@@ -839,7 +857,11 @@ func runLive(c Case, opt Options, live *Live) *Trace {
 				break
 			}
 			if time.Since(lastChange) > settle {
-				break // stuck
+				// stuck. A backend connection that still looks open inside a transaction may only be waiting for its
+				// (loaded) server goroutine to notice that the proxy closed the socket: give those a little longer.
+				if !dirty(curOpen) || time.Since(start) > 3*time.Second {
+					break
+				}
 			}
 			if time.Since(start) > 10*time.Second {
 				tr.StillChanging = true
